@@ -161,7 +161,11 @@ def run_check(prop, tier, only=None, jobs=None, native=True, proof=True, verbose
         k = open_findings[fid]
         lines.append(f"KNOWN-FINDING: property={prop} {k['what']} [{fid}; {len(obs)} check(s)]")
     replay_of = {}
+    seen_checks = set()
     for c, f in nat_fail:
+        if c['name'] in seen_checks:
+            continue
+        seen_checks.add(c['name'])
         p = write_replay(prop, c['name'], dict(kind='native-contract-failure', check=c['name'], bound=c.get('bound'), failure=f), code=f.get('replay_code'))
         replay_of.setdefault(c.get('covers', c['name']), p)
         lines.append(f"VIOLATION property={prop} replay={p}")
